@@ -261,9 +261,12 @@ def cells(prop, tier):
     out = []
     q = 'quick'
     for kind in range(3):
-        out.append(Cell(name='c16_async_%s' % ('iterator', 'generator', 'iterable')[kind], sig='n: int, failpos: int, step: int, prio_idx: int, p1: int',
-                        pre=['0 <= n <= 3 and -1 <= failpos <= n and 0 <= step <= 2 and 0 <= prio_idx <= 1 and 0 <= p1 <= 90'],
-                        body='H.scen_async(n, failpos, step, %d, prio_idx, p1)' % kind, tier=q, timeout=900, family='async', weight=3))
+        for n in range(4):
+            if kind == 2 and n not in (0, 3):
+                continue
+            out.append(Cell(name='c16_async_%s_n%d' % (('iterator', 'generator', 'iterable')[kind], n), sig='failpos: int, step: int, prio_idx: int, p1: int',
+                            pre=['-1 <= failpos <= %d and 0 <= step <= 2 and 0 <= prio_idx <= 1 and 0 <= p1 <= 90' % n],
+                            body='H.scen_async(%d, failpos, step, %d, prio_idx, p1)' % (n, kind), tier=q, timeout=900, family='async', weight=2 + n))
     for own in (False, True):
         out.append(Cell(name='c16_sync_%s' % ('given_loop' if own else 'new_loop'), sig='n: int, failpos: int, step: int, prio_idx: int, p1: int',
                         pre=['0 <= n <= 3 and -1 <= failpos <= n and 0 <= step <= 1 and 0 <= prio_idx <= 1 and 0 <= p1 <= 90'],
